@@ -6,11 +6,15 @@
     LP-annotated trace of the sequential specification (linearization point = execution by the combiner),
     hence every history is linearizable.
 
-      counting container (harness/C23)   fc_counting_*         CountSpec: exactly-once execution
+      counting container (harness/C23)   fc_single_combiner, fc_exactly_once, fc_records_not_used_after_free
       FCDeque                            fcdeque_linearizable  Specs.Deque
       FCQueue                            fcqueue_linearizable  Specs.Fifo
       FCStack                            fcstack_linearizable  Specs.Stack
-      FCPriorityQueue                    fcpq_linearizable     Specs.PQueue *)
+      FCPriorityQueue                    fcpq_linearizable     Specs.PQueue
+
+    Three layers: part A (LV.Proofs.FcKernelProofs: LP-validity while no record is released unanswered; the
+    `_partA` theorems, valid for both versions of compact_list), part B (LV.Proofs.FcKernelShape: no record is
+    ever released unanswered) and part C (LV.Proofs.FcKernelFree: no access to a freed record). *)
 From Coq Require Import ZArith List String Bool Lia PeanoNat.
 From LV Require Import Base.Conc Base.Events Base.Lin Spec.Specs Proofs.LinProofs
                        Model.FcKernel Model.FcBatch Proofs.FcBatchProofs Proofs.FcKernelProofs.
@@ -256,4 +260,91 @@ Theorem fcpq_linearizable fuel mask npass ths c :
 Proof.
   intros Hok Hp Hr. apply (fcpq_linearizable_partA Hok Hr). unfold pq_init_cfg in Hr.
   exact (FcKernelShape.fc_never_lost (ops_ok_progs_ok s_okop_ge2 Hok Hp) Hr).
+Qed.
+
+(** ** Part C: publication records are not used after they were freed (current code, chk = true)
+
+    LV.Proofs.FcKernelFree.fc_no_uaf: part B's invariant extended with the ghost allocated list and the set of
+    freed records.  The only fact needed about a container's fc_process is which records an iteration may
+    complete: the record it is at, or the one it kept in itPrev. *)
+From LV Require Proofs.FcKernelFree.
+
+Definition cnt_pheldr (p : cnt_P) : list nat := match p with Some (q, _) => [q] | None => [] end.
+Definition it_recs (p : itprev) : list nat := match p with Some (q, _, _) => [q] | None => [] end.
+
+Ltac visit_recs f :=
+  let H := fresh "H" in
+  intros p c r op tid arg p' c' cs H; unfold f, collide in H;
+  repeat (match type of H with
+          | context [match ?x with Some _ => _ | None => _ end] => destruct x as [[[? ?] ?]|]
+          | context [if ?b then _ else _] => destruct b
+          end);
+  inversion H; subst; cbn; split; intros x Hx; cbn in *; intuition.
+
+Lemma cnt_visit_recs : forall p c r op tid arg p' c' cs, cnt_visit p c r op tid arg = (p', c', cs) ->
+  (forall q, In q (map fst cs) -> q = r \/ In q (cnt_pheldr p)) /\ (forall q, In q (cnt_pheldr p') -> q = r \/ In q (cnt_pheldr p)).
+Proof.
+  intros p c r op tid arg p' c' cs H. unfold cnt_visit in H.
+  destruct (Nat.eqb op op_pair); [|inversion H; subst; cbn; split; intros x Hx; cbn in *; intuition].
+  destruct p as [[q qarg]|]; [|inversion H; subst; cbn; split; intros x Hx; cbn in *; intuition].
+  destruct (Nat.eqb q r); inversion H; subst; cbn; split; intros x Hx; cbn in *; intuition.
+Qed.
+
+Lemma dq_visit_recs : forall p c r op tid arg p' c' cs, dq_visit p c r op tid arg = (p', c', cs) ->
+  (forall q, In q (map fst cs) -> q = r \/ In q (it_recs p)) /\ (forall q, In q (it_recs p') -> q = r \/ In q (it_recs p)).
+Proof. visit_recs dq_visit. Qed.
+Lemma q_visit_recs : forall p c r op tid arg p' c' cs, q_visit p c r op tid arg = (p', c', cs) ->
+  (forall q, In q (map fst cs) -> q = r \/ In q (it_recs p)) /\ (forall q, In q (it_recs p') -> q = r \/ In q (it_recs p)).
+Proof. visit_recs q_visit. Qed.
+Lemma s_visit_recs : forall p c r op tid arg p' c' cs, s_visit p c r op tid arg = (p', c', cs) ->
+  (forall q, In q (map fst cs) -> q = r \/ In q (it_recs p)) /\ (forall q, In q (it_recs p') -> q = r \/ In q (it_recs p)).
+Proof. visit_recs s_visit. Qed.
+Lemma no_visit_recs : forall p c r op tid arg p' c' cs, no_visit p c r op tid arg = (p', c', cs) ->
+  (forall q, In q (map fst cs) -> q = r \/ In q (it_recs p)) /\ (forall q, In q (it_recs p') -> q = r \/ In q (it_recs p)).
+Proof. visit_recs no_visit. Qed.
+
+Lemma ops_ok_progs_ok_free okop npass ths : (forall op, okop op = true -> 2 <= op) ->
+  ops_ok okop ths -> passes_ok npass ths -> FcKernelFree.progs_ok npass ths.
+Proof.
+  intros H2 Hok Hp. split; [|exact Hp]. eapply Forall_impl; [|exact Hok]. intros os Hos.
+  eapply Forall_impl; [|exact Hos]. intros [b op arg|] Ho; cbn in *; auto.
+Qed.
+
+(** the kernel (counting container): no atomic access to a freed publication record, on every trace *)
+Theorem fc_records_not_used_after_free fuel mask npass ths c :
+  ops_ok cnt_okop ths -> passes_ok npass ths -> Conc.reach (cnt_init_cfg true fuel mask npass ths) c ->
+  FcKernelFree.has_uaf (Conc.trace c) = false.
+Proof.
+  intros Hok Hp Hr. unfold cnt_init_cfg in Hr.
+  exact (proj1 (@FcKernelFree.fc_no_uaf _ _ _ _ _ _ (None : cnt_P) _ cnt_pheldr eq_refl cnt_visit_recs _ _ _ _ _ _ (ops_ok_progs_ok_free cnt_okop_ge2 Hok Hp) Hr)).
+Qed.
+
+(** the same for the four containers' instances of the kernel *)
+Theorem fcdeque_records_not_used_after_free fuel mask npass ths c :
+  ops_ok dq_okop ths -> passes_ok npass ths -> Conc.reach (dq_init_cfg true fuel mask npass ths) c ->
+  FcKernelFree.has_uaf (Conc.trace c) = false.
+Proof.
+  intros Hok Hp Hr. unfold dq_init_cfg in Hr.
+  exact (proj1 (@FcKernelFree.fc_no_uaf _ _ _ _ _ _ (None : itprev) _ it_recs eq_refl dq_visit_recs _ _ _ _ _ _ (ops_ok_progs_ok_free dq_okop_ge2 Hok Hp) Hr)).
+Qed.
+Theorem fcqueue_records_not_used_after_free fuel mask npass ths c :
+  ops_ok q_okop ths -> passes_ok npass ths -> Conc.reach (q_init_cfg true fuel mask npass ths) c ->
+  FcKernelFree.has_uaf (Conc.trace c) = false.
+Proof.
+  intros Hok Hp Hr. unfold q_init_cfg in Hr.
+  exact (proj1 (@FcKernelFree.fc_no_uaf _ _ _ _ _ _ (None : itprev) _ it_recs eq_refl q_visit_recs _ _ _ _ _ _ (ops_ok_progs_ok_free q_okop_ge2 Hok Hp) Hr)).
+Qed.
+Theorem fcstack_records_not_used_after_free fuel mask npass ths c :
+  ops_ok s_okop ths -> passes_ok npass ths -> Conc.reach (s_init_cfg true fuel mask npass ths) c ->
+  FcKernelFree.has_uaf (Conc.trace c) = false.
+Proof.
+  intros Hok Hp Hr. unfold s_init_cfg in Hr.
+  exact (proj1 (@FcKernelFree.fc_no_uaf _ _ _ _ _ _ (None : itprev) _ it_recs eq_refl s_visit_recs _ _ _ _ _ _ (ops_ok_progs_ok_free s_okop_ge2 Hok Hp) Hr)).
+Qed.
+Theorem fcpq_records_not_used_after_free fuel mask npass ths c :
+  ops_ok s_okop ths -> passes_ok npass ths -> Conc.reach (pq_init_cfg true fuel mask npass ths) c ->
+  FcKernelFree.has_uaf (Conc.trace c) = false.
+Proof.
+  intros Hok Hp Hr. unfold pq_init_cfg in Hr.
+  exact (proj1 (@FcKernelFree.fc_no_uaf _ _ _ _ _ _ (None : itprev) _ it_recs eq_refl no_visit_recs _ _ _ _ _ _ (ops_ok_progs_ok_free s_okop_ge2 Hok Hp) Hr)).
 Qed.
